@@ -63,6 +63,36 @@ func C02(p *ir.Program, r *report.R) {
 			}
 		})
 		c.MustFind("K1", csT+"addProposalBlockPart/recover-gate", ap, ng, "uses of the completed proposal block")
+		// a block that fails a gate is not kept: on every path from a failed gate to the return,
+		// cs.ProposalBlock is reset to nil (else the "rejected" block is prevoted at the propose timeout)
+		isClear := func(in ssa.Instruction) bool {
+			st, ok := in.(*ssa.Store)
+			return ok && ir.Render(st.Addr) == "&cs.RoundState.ProposalBlock" && ir.Render(st.Val) == "nil"
+		}
+		nGate := 0
+		for _, gatePat := range []struct{ label, pat string }{
+			{"recover-mismatch", ir.NePat("cs.RoundState.ProposalBlock.Header.Recover", "cs.recover")},
+			{"malformed", "!types.Block.WellFormed(cs.RoundState.ProposalBlock)"},
+		} {
+			for _, b := range ap.Blocks {
+				fs := ir.FactsAtBlock(b)
+				if !ir.HasFact(fs, gatePat.pat) || len(b.Instrs) == 0 {
+					continue
+				}
+				// only the block where the fact is first established (its immediate dominator lacks it)
+				if id := ir.Info(ap).Idom(b); id != nil && ir.HasFact(ir.FactsAtBlock(id), gatePat.pat) {
+					continue
+				}
+				nGate++
+				found, hit, tr := ir.FindPath(ir.PathQuery{From: ir.Point{B: b, I: -1}, Target: ir.IsReturn, Avoid: isClear})
+				d := "the rejected block is dropped before returning"
+				if found {
+					d += fmt.Sprintf(" — but the return at %s is reached with the block still installed, blocks %v", p.InstrPos(hit), tr)
+				}
+				r.Check("K2", csT+"addProposalBlockPart/gate-failed/"+gatePat.label+"/block-dropped", p.InstrPos(b.Instrs[0]), !found, d)
+			}
+		}
+		r.Check("K2", csT+"addProposalBlockPart/gate-failed/sites", p.Pos(ap.Pos()), nGate >= 2, fmt.Sprintf("%d failed-gate branches found (recover mismatch, malformed block)", nGate))
 	}
 
 	ep := p.Func("consensus", "ConsensusState.enterPrecommit")
@@ -175,6 +205,11 @@ func C02(p *ir.Program, r *report.R) {
 		}
 	}
 	var _ ssa.Value
+
+	// ---- the last-commit verification validateBlock relies on (decided in detail under C03) --------
+	verifyCommitTally(c)
+	// the status blocks are validated against is rebuilt with the right validator set after a crash
+	rebuildStatusRules(c)
 }
 
 var _ = report.Discharged
